@@ -1,4 +1,4 @@
 From Coq Require Import ZArith List Extraction ExtrOcamlBasic.
 From Sky Require Import Result Num M_Flux.
-Extraction "model.ml" e_call e_int t_call t_int t_total t_cdf ffm_to_internal box_cdf s_call box_new box_from gauss_new
+Extraction "model.ml" e_call e_int t_call t_int t_total rv_pdf_of t_cdf ffm_to_internal box_cdf s_call box_new box_from gauss_new
   ffm_new ffm_call ffm_call2 obj_get_param step run view_of Z.of_nat Z.to_nat.
